@@ -7,6 +7,9 @@ Values travel as space-separated tokens in prefix notation:
 `n` nil, `t`/`f` bool, `i<decimal>` int, `d<decimal>` float (IEEE bits), `y<n>` byte,
 `s<hex>` string, `b<hex>` byte_slice (`-` for empty), `l<count>` list (items follow),
 `m<count>` map (`s<hex>` key and value pairs follow, ascending raw keys).
+
+`session` requests carry space-separated steps `L<hex>` / `E:<codec>:<slot>` / `D:<codec>:<slot>`;
+the reply is every slot (hex of its bytes, or `err`) as it looks at the end in the heap model.
 -/
 namespace Risor.C19
 open Risor.Util
@@ -169,7 +172,44 @@ def goValOf : Val → Option GoVal
   | .bytes s => some (.bytes s)
   | _ => none
 
+/-- one step of a session: `L<hex>` literal, `E:<codec>:<slot>` encode, `D:<codec>:<slot>` decode -/
+def parseCall (tok : String) : Option Call :=
+  match tok.toList with
+  | 'L' :: cs => (fromHex (String.ofList cs)).map .lit
+  | 'E' :: ':' :: _ =>
+    match tok.splitOn ":" with
+    | [_, c, i] =>
+      match (parseCodec c).1, natOfChars i.toList with
+      | some f, some n => some (.app (fun b => some (f b)) n)
+      | _, _ => none
+    | _ => none
+  | 'D' :: ':' :: _ =>
+    match tok.splitOn ":" with
+    | [_, c, i] =>
+      match (parseCodec c).2, natOfChars i.toList with
+      | some f, some n => some (.app f n)
+      | _, _ => none
+    | _ => none
+  | _ => none
+
+def parseCalls : List String → Option (List Call)
+  | [] => some []
+  | t :: r =>
+    match parseCall t, parseCalls r with
+    | some c, some cs => some (c :: cs)
+    | _, _ => none
+
+def showSlot : Option Bytes → String
+  | some b => toHexField b
+  | none => "err"
+
 def handle : List String → String
+  | ["session", calls] =>
+    -- the Impl heap model with the unchanged code's allocation policy; every slot as it looks
+    -- at the END of the session
+    match parseCalls ((calls.splitOn " ").filter (· ≠ "")) with
+    | some cs => " ".intercalate ((runImpl fresh Mem.empty cs).observe.map showSlot)
+    | none => "error\tbad-session"
   | ["enc", c, x] =>
     match (parseCodec c).1, fromHex x with
     | some f, some b => toHexField (f b)
